@@ -8,8 +8,6 @@ import (
 	"net"
 	"net/netip"
 	"os"
-	"path/filepath"
-	"regexp"
 	"sort"
 	"strings"
 	"sync"
@@ -199,65 +197,6 @@ func runC14Unsync(c *fw.Ctx, v refmatch.Variant, rep int) c14Obs {
 	return obs
 }
 
-var raceHdr = regexp.MustCompile(`^WARNING: DATA RACE`)
-
-type raceReport struct {
-	text       string
-	repoFrames []string // first repository frame of each stack section
-	harness    bool
-}
-
-func parseRaceLogs(dir string) []raceReport {
-	files, _ := filepath.Glob(filepath.Join(dir, "race.*"))
-	var out []raceReport
-	for _, f := range files {
-		b, err := os.ReadFile(f)
-		if err != nil {
-			continue
-		}
-		blocks := strings.Split(string(b), "==================")
-		for _, bl := range blocks {
-			if !strings.Contains(bl, "WARNING: DATA RACE") {
-				continue
-			}
-			rep := raceReport{text: bl}
-			// sections: "Read at", "Previous write at", "Write at", "Previous read at" ... each followed by a stack
-			secs := regexp.MustCompile(`(?m)^(Read|Write|Previous read|Previous write|Atomic.*) at .*$`).FindAllStringIndex(bl, -1)
-			for i, s := range secs {
-				end := len(bl)
-				if i+1 < len(secs) {
-					end = secs[i+1][0]
-				}
-				if g := strings.Index(bl[s[1]:end], "\nGoroutine "); g >= 0 {
-					end = s[1] + g
-				}
-				stack := bl[s[1]:end]
-				frame := ""
-				for _, line := range strings.Split(stack, "\n") {
-					line = strings.TrimSpace(line)
-					if strings.HasPrefix(line, "github.com/DataDog/datadog-traceroute/") {
-						frame = strings.TrimPrefix(line, "github.com/DataDog/datadog-traceroute/")
-						if p := strings.LastIndex(frame, "("); p > 0 {
-							frame = frame[:p]
-						}
-						break
-					}
-				}
-				rep.repoFrames = append(rep.repoFrames, frame)
-			}
-			n := 0
-			for _, fr := range rep.repoFrames {
-				if fr != "" {
-					n++
-				}
-			}
-			rep.harness = n == 0
-			out = append(out, rep)
-		}
-	}
-	return out
-}
-
 func checkC14() fw.Check {
 	return fw.Check{
 		Prop:  "C14",
@@ -312,30 +251,7 @@ func checkC14() fw.Check {
 			}
 			return cases
 		},
-		Finish: func(c *fw.Ctx) {
-			reps := parseRaceLogs(*fw.FlagOut)
-			seen := map[string]bool{}
-			harnessOnly := 0
-			for _, r := range reps {
-				if r.harness {
-					harnessOnly++
-					continue
-				}
-				fr := append([]string(nil), r.repoFrames...)
-				sort.Strings(fr)
-				sig := "race/" + strings.Join(fr, "|")
-				if seen[sig] {
-					continue
-				}
-				seen[sig] = true
-				c.Violate("C14", sig, "data race reported by the race detector between "+strings.Join(fr, " and "), r.text)
-			}
-			c.Count("race_reports", len(reps))
-			c.Count("race_signatures", len(seen))
-			if harnessOnly > 0 {
-				c.Inconclusive(fmt.Sprintf("%d race report(s) without repository frames (harness race)", harnessOnly))
-			}
-		},
+		Finish: func(c *fw.Ctx) { fw.ReportRaces(c, "") },
 	}
 }
 
@@ -396,11 +312,6 @@ func runC14Concurrent(c *fw.Ctx, i int) {
 
 // runC14RdnsFanout: the reverse-DNS fan-out with many addresses and instant answers (first from the resolver, then
 // from the cache): lookups complete while the spawning loop is still iterating.
-// runC14AllocBursts: the process-wide allocators under maximal contention. Each burst releases 16 goroutines at
-// once; every identifier block handed out inside one burst (fewer than 65536 identifiers in total, so a 16-bit
-// allocator has no reason to reuse one) must be disjoint from every other. A read-modify-write that is "atomic"
-// per access but not as a whole (Load then Store) is silent for the race detector and shows up here as two callers
-// holding the same block.
 func runC14AllocBursts(c *fw.Ctx, reps int) {
 	allocMu.Lock()
 	defer allocMu.Unlock()
